@@ -407,7 +407,9 @@ class FieldDomain:
                     continue
 
                 for key in keys:
-                    found = re.findall(r"\d+$", key)[0]
+                    # Use the trailing digits of the key, or else the
+                    # whole key if it does not end with a digit
+                    found = (re.findall(r"\d+$", key) or [key])[0]
                     key_to_name[key] = f"{name}{{{found}}}"
 
         return key_to_name
@@ -441,7 +443,9 @@ class FieldDomain:
                 key_to_name[keys[0]] = f"{name}({size})"
             else:
                 for key in keys:
-                    found = re.findall(r"\d+$", key)[0]
+                    # Use the trailing digits of the key, or else the
+                    # whole key if it does not end with a digit
+                    found = (re.findall(r"\d+$", key) or [key])[0]
                     key_to_name[key] = f"{name}{{{found}}}({size})"
 
         return key_to_name
